@@ -496,9 +496,23 @@ namespace Pistache::Http::Experimental
             auto connection       = connIt->second.connection.lock();
             if (connection)
             {
+                // writable also when the connection attempt has failed (refused, unreachable)
+                int err       = 0;
+                socklen_t len = sizeof(err);
+                if (getsockopt(fd, SOL_SOCKET, SO_ERROR, &err, &len) == 0 && err != 0)
+                {
+                    auto failed = std::move(connectionEntry);
+                    connections.erase(connIt);
+                    connection->close();
+                    failed.reject(std::runtime_error(std::string("Could not connect: ") + strerror(err)));
+                    return;
+                }
+
                 connectionEntry.resolve();
-                // We are connected, we can start reading data now
-                reactor()->modifyFd(key(), connection->fd(), NotifyOn::Read);
+                // We are connected, we can start reading data now - unless what was waiting
+                // for the connection has already failed on it and given it up
+                if (connections.find(fd) != std::end(connections))
+                    reactor()->modifyFd(key(), fd, NotifyOn::Read);
             }
             else
             {
@@ -627,7 +641,19 @@ namespace Pistache::Http::Experimental
                         connectionState_.store(Connected);
                         processRequestQueue();
                     },
-                    PrintException());
+                    [=](std::exception_ptr exc) {
+                        // The connection could not be established: the requests that wait
+                        // for it fail (each one frees the connection for the next attempt)
+                        for (;;)
+                        {
+                            auto req = requestsQueue.popSafe();
+                            if (!req)
+                                break;
+                            req->reject(exc);
+                            if (req->onDone)
+                                req->onDone();
+                        }
+                    });
             break;
         }
 
